@@ -20,6 +20,9 @@ SYMBOLS = {"lo": 0, "mid": 1, "hi": 2}
 PROBES = [
     ("scalar symbol", [("S", "mid")], "::i:c:S", [("i", 1)], 0),
     ("scalar int", [("i", 5)], "::i:c:S", [("i", 5)], 0),
+    ("number for a char port", [("i", 64)], "::c", [("c", 64)], 0),
+    ("char for a char port", [("c", 65)], "::c", [("c", 65)], 0),
+    ("number for a char port that also takes an int", [("i", 64)], "::i:c", [("i", 64)], 0),
     ("symbol where the signature takes a symbol", [("S", "lo")], ":S", [("S", "lo")], 0),
     ("two values", [("S", "hi"), ("i", 7)], ":ii", [("i", 2), ("i", 7)], 0),
     ("more values than the signature", [("i", 1), ("S", "lo")], ":i", [("i", 1), ("S", "lo")], 1),
